@@ -744,7 +744,12 @@ class Message:
         except ValueError as e:
             raise error.MalformedUrlError("Port must be numeric") from e
 
-        self.remote = UndecidedRemote(parsed.scheme, parsed.netloc)
+        try:
+            self.remote = UndecidedRemote(parsed.scheme, parsed.netloc)
+        except ValueError as e:
+            raise error.MalformedUrlError(
+                "Only IPv6 addresses are supported as IP literals"
+            ) from e
 
         is_ip_literal = parsed.netloc.startswith("[") or (
             parsed.hostname.count(".") == 3
